@@ -597,6 +597,11 @@ func (vc *VC) applyFrame(h *Heap, fr []frameEntry, args []*Val) {
 func (vc *VC) applyContract(ins *ssa.Call, c *Contract, f *ssa.Function, sig *types.Signature, args []*Val, invoke bool) {
 	h := vc.cur.heap
 	c.used = true
+	applyFrom := len(vc.items)
+	defer func() {
+		vc.applyMarks = append(vc.applyMarks, applyMark{from: applyFrom, to: len(vc.items), pc: vc.cur.pc,
+			what: fmt.Sprintf("contract of %s applied at %s", shortKey(c.Key), vc.pos(ins.Pos()))})
+	}()
 	pre := h.clone()
 	var envPkg *ssa.Package
 	mkEnv := func(results []*Val, heap *Heap) *Env {
